@@ -1,5 +1,6 @@
 import Lox.Drv.Common
 import Lox.Rang3.Model
+import Lox.Rang3.ClassText
 /-! Driver ops of the Rang3 vertical (protocol documented in /verif/harness/drv/ops_rang3.go). -/
 namespace Lox.Rang3
 open Lox.Drv
@@ -43,6 +44,27 @@ def handle (op payload : String) : Option String :=
     | some log =>
       let pieces := log.foldl applyNormCb (heapOf rs)
       some (showRanges pieces ++ " ; " ++ " / ".intercalate (log.map fun cb => showRanges [cb.o, cb.a, cb.b, cb.c]))
+  | "rang3.classitems" =>
+    -- payload: `neg | c f c f …` or `neg | … ; neg | …` (difference): tokens of each class, f = 1 for CLASS_DASH
+    let cls (s : String) : Option ClassExpr :=
+      match s.splitOn "|" with
+      | [n, toks] => do
+        let n ← parseInts n
+        let xs ← parseInts toks
+        let rec pairs : List Int → Option (List CTok)
+          | [] => some []
+          | c :: f :: rest => (pairs rest).map ((c, f != 0) :: ·)
+          | _ => none
+        let ts ← pairs xs
+        some (.cls (n == [1]) (classItems ts))
+      | _ => none
+    match payload.splitOn ";" with
+    | [a] => (cls a).map fun e => showRanges e.eval
+    | [a, b] => do
+      let l ← cls a
+      let r ← cls b
+      some (showRanges (ClassExpr.sub l r).eval)
+    | _ => none
   | _ => none
 
 end Lox.Rang3
